@@ -319,7 +319,7 @@ def oracle_pin(tier):
     import subprocess
     state = os.path.join(common.VERIF, ".state", "oracle_pin.json")
     if tier == "thorough" or not os.path.exists(state):
-        subprocess.run([os.path.join(common.VERIF, "tools", "pin_oracle.sh"), "5"], capture_output=True, text=True)
+        subprocess.run([os.path.join(common.VERIF, "tools", "pin_oracle.sh"), "5", "11" if tier == "thorough" else "9"], capture_output=True, text=True)
     try:
         return json.load(open(state))
     except Exception:
